@@ -18,6 +18,10 @@ package main
 // Failures that are listed defects are reported with r.Known(key, …); everything else is r.Fail.
 
 import (
+	simapp "github.com/KiraCore/sekai/app"
+	recoverykeeper "github.com/KiraCore/sekai/x/recovery/keeper"
+	recoverytypes "github.com/KiraCore/sekai/x/recovery/types"
+	authtypes "github.com/cosmos/cosmos-sdk/x/auth/types"
 	"crypto/sha256"
 	"encoding/hex"
 	"fmt"
@@ -1012,6 +1016,133 @@ func (h *c17) newEpisode(name string) {
 	}
 }
 
+// newEpisodeFresh: as newEpisode, but account `fresh` has no account and no coins at genesis (its key exists): the target
+// of a recovery rotation must be such an address
+func (h *c17) newEpisodeFresh(name string, fresh int) {
+	h.w = NewWorld(WorldOpts{NAcc: c17NAcc, NVal: 1, SudoAccs: []int{0}, MutGenesis: func(w *World, gs simapp.GenesisState) {
+		cdc := w.app.AppCodec()
+		var ag authtypes.GenesisState
+		cdc.MustUnmarshalJSON(gs[authtypes.ModuleName], &ag)
+		accs, err := authtypes.UnpackAccounts(ag.Accounts)
+		if err != nil {
+			panic(err)
+		}
+		var keep authtypes.GenesisAccounts
+		for _, a := range accs {
+			if !a.GetAddress().Equals(w.addrs[fresh]) {
+				keep = append(keep, a)
+			}
+		}
+		packed, err := authtypes.PackAccounts(keep)
+		if err != nil {
+			panic(err)
+		}
+		ag.Accounts = packed
+		gs[authtypes.ModuleName] = cdc.MustMarshalJSON(&ag)
+		var bg banktypes.GenesisState
+		cdc.MustUnmarshalJSON(gs[banktypes.ModuleName], &bg)
+		var bals []banktypes.Balance
+		for _, b := range bg.Balances {
+			if b.Address == w.addrs[fresh].String() {
+				bg.Supply = bg.Supply.Sub(b.Coins...)
+				continue
+			}
+			bals = append(bals, b)
+		}
+		bg.Balances = bals
+		gs[banktypes.ModuleName] = cdc.MustMarshalJSON(&bg)
+	}})
+	h.addrIdx = map[string]int{}
+	for i, a := range h.w.addrs {
+		h.addrIdx[a.String()] = i
+	}
+	h.hashID, h.hashHex = map[string]int{}, map[int]string{}
+	h.approvals, h.confirms = map[string][]c17vote{}, map[string][]c17conf{}
+	h.trace = nil
+	h.r.Mark("episode " + name)
+	minReward := h.w.app.CustomGovKeeper.GetNetworkProperties(h.w.KeeperCtx()).MinCustodyReward
+	h.op(fmt.Sprintf("custody reset n=%d ukex=1000000000000 ueth=1000000000 minreward=%d", c17NAcc, minReward), "ok")
+	h.op(fmt.Sprintf("custody setbal %d 0 0", fresh), "ok")
+	h.op(fmt.Sprintf("custody setbal %d 1 0", fresh), "ok")
+	snap := h.snapshot()
+	for i := range snap {
+		h.op(fmt.Sprintf("custody obs %d", i), snap[i].str)
+	}
+}
+
+// rotate: the owner of `old` registers a recovery secret and rotates the account to the address `nw` (one block, at
+// keeper level through the real recovery msg server); `payer` pays the recovery fee
+func (h *c17) rotate(old, nw, payer int) string {
+	w := h.w
+	rms := recoverykeeper.NewMsgServerImpl(w.app.RecoveryKeeper)
+	proof := hex.EncodeToString([]byte(fmt.Sprintf("c17-secret-%d", old)))
+	pb, _ := hex.DecodeString(proof)
+	ch := sha256.Sum256(pb)
+	var err error
+	br := w.Block(nil, BlockOpts{Mid: func(ctx sdk.Context) {
+		err = withCache(ctx, func(c sdk.Context) error {
+			if _, e := rms.RegisterRecoverySecret(sdk.WrapSDKContext(c), recoverytypes.NewMsgRegisterRecoverySecret(w.addrs[old].String(), hex.EncodeToString(ch[:]), "00", "")); e != nil {
+				return e
+			}
+			_, e := rms.RotateRecoveryAddress(sdk.WrapSDKContext(c), recoverytypes.NewMsgRotateRecoveryAddress(w.addrs[payer].String(), w.addrs[old].String(), w.addrs[nw].String(), proof))
+			return e
+		})
+	}})
+	if br.Panicked != nil {
+		h.r.Fail("C17/block/panic", fmt.Sprintf("rotation block panicked in %s: %v", br.Phase, br.Panicked), h.replay())
+		return "panic"
+	}
+	w.ApplyUpdates(br.Updates)
+	res := "ok"
+	if err != nil {
+		res = "err"
+	}
+	h.op(fmt.Sprintf("custody rotate %d %d %d 1000000000", old, nw, payer), res)
+	h.r.Count("rotate:" + res)
+	post := h.snapshot()
+	for i := 0; i < c17NAcc; i++ {
+		h.op(fmt.Sprintf("custody obs %d", i), post[i].str)
+	}
+	return res
+}
+
+// rotationStrand: a guarded account with a pending transfer and one of two approvals is rotated to a new address (its
+// owner proves the recovery secret). "Each custodian counts once": the custodian who approved before the rotation must
+// not be counted again afterwards - under the old or the new address -, and the coins leave only once both custodians
+// have approved.
+func (h *c17) rotationStrand() {
+	create := func(mode uint64) *cmsg {
+		return &cmsg{kind: "create", en: true, mode: mode, old: 0, newK: "H1", next: "~", target: "~"}
+	}
+	addc := func(add []int) *cmsg {
+		m := mk("addcust", c17K(1, "H1", "~", "~"))
+		m.add = add
+		return m
+	}
+	for variant := 0; variant < 3; variant++ {
+		h.newEpisodeFresh(fmt.Sprintf("rotation of a guarded account with a pending transfer (%d)", variant), 9)
+		h.doTx(1, nil, create(100))
+		h.doTx(1, nil, addc([]int{4, 5}))
+		s := &cmsg{kind: "send", to: 3, coins: uk(500000), pwid: 0, reward: uk(1000)}
+		h.doTx(1, nil, s)
+		if variant != 2 {
+			h.doTx(4, nil, &cmsg{kind: "approve", tg: 1, hid: s.hid})
+		}
+		if h.rotate(1, 9, []int{1, 2, 1}[variant]) != "ok" {
+			continue
+		}
+		h.doTx(4, nil, &cmsg{kind: "approve", tg: 9, hid: s.hid})
+		h.doTx(4, nil, &cmsg{kind: "approve", tg: 1, hid: s.hid})
+		h.doTx(5, nil, &cmsg{kind: "approve", tg: 9, hid: s.hid})
+		h.doTx(4, nil, &cmsg{kind: "approve", tg: 9, hid: s.hid, hvar: 1})
+		// the rotated account goes on: another transfer, approved by both
+		s2 := &cmsg{kind: "send", to: 3, coins: uk(7000), pwid: 0, reward: uk(1000)}
+		h.doTx(9, nil, s2)
+		h.doTx(5, nil, &cmsg{kind: "approve", tg: 9, hid: s2.hid})
+		h.doTx(4, nil, &cmsg{kind: "approve", tg: 9, hid: s2.hid})
+	}
+}
+
 func c17K(old int, newK, next, target string) cmsg {
 	return cmsg{old: old, newK: newK, next: next, target: target}
 }
@@ -1616,6 +1747,7 @@ func runC17(r *Rec) {
 	}
 	r.Extra["rule"] = "one case = one signed transaction through the real ante chain and message servers (1 per block), compared with the Lean model on the result class and on the full custody dump of all 10 accounts; non-trivial = all (every transaction is followed by the complete dump); distinct by (op line, result)"
 	h.witnesses()
+	h.rotationStrand()
 	h.keyMatrix()
 	h.policyMatrix()
 	h.thresholdMatrix()
